@@ -102,5 +102,42 @@ def run(ctx):
     ctx.extra['pjsondec'] = dict(cases=len(dec_cases), accepted=acc, unmodelled=unk)
     ctx.oblige('correspondence: Policy.UnmarshalJSON = PolicyJson.dec_policy on %d JSON trees (encoder outputs and structural mutants; %d outside the modelled domain)'
                % (len(dec_cases), unk), 'correspondence', mism == 0)
+    # policy sets: {"staticPolicies": {id: policy}} - ids (incl. awkward ones) are the keys
+    IDS = ['p', 'policy0', 'policy10', '', 'a b', 'é', '"q"', 'staticPolicies', 'x/y', 'P']
+    sets = []
+    for i in range(150 if ctx.tier == 'quick' else 5000):
+        ids = r.sample(IDS, r.randrange(0, 5))
+        chosen = [r.choice(pols) for _ in ids]
+        sets.append(['policies'] + [[c_[0], S(i_)] + c_[2:] for i_, c_ in zip(ids, chosen)])
+    ps_enc = [case('se%d' % i, 'psjsonenc', st) for i, st in enumerate(sets)]
+    go_pe, mo_pe, m3 = lib.differential(ctx, ps_enc, 'psjsonenc', project=c13.proj_tree,
+                                        describe='PolicySet.MarshalJSON: Go and the Coq model (Impl/PolicyJson.v enc_policy_set) produce different JSON trees')
+    ctx.oblige('correspondence: PolicySet.MarshalJSON = PolicyJson.enc_policy_set as JSON trees on %d policy sets' % len(ps_enc), 'correspondence', not m3)
+    ps_trees = []
+    for c in ps_enc:
+        res_ = go_pe.get(lib.case_id(c), '')
+        if res_.startswith('(tree '):
+            t = sx.parse(res_)[1]
+            ps_trees.append(t)
+            for _ in range(2):
+                ps_trees.append(mutate(t))
+    ps_trees += [['null'], ['obj'], ['obj', [S('staticPolicies'), ['null']]], ['obj', [S('staticPolicies'), ['obj', [S('a'), ['null']]]]], ['obj', [S('staticPolicies'), ['arr']]],
+                 ['obj', [S('templates'), ['obj']], [S('staticPolicies'), ['obj']]], ['arr']]
+    ps_dec = [case('sd%d' % i, 'psjsondec', t) for i, t in enumerate(ps_trees)]
+    go_pd = lib.run_go(ps_dec, 'psjsondec', ctx.workdir)
+    mo_pd = lib.run_model(ps_dec, 'psjsondec', ctx.workdir)
+    m4 = unk4 = 0
+    for c in ps_dec:
+        cid = lib.case_id(c)
+        g_, m_ = proj_dec(go_pd.get(cid, '(missing)')), proj_dec(mo_pd.get(cid, '(missing)'))
+        if m_ == '(unmodelled)':
+            unk4 += 1
+            continue
+        if g_ != m_:
+            m4 += 1
+            if m4 <= 6:
+                ctx.violation('PolicySet.UnmarshalJSON: Go and the Coq model (Impl/PolicyJson.v dec_policy_set) disagree: go=%s model=%s' % (g_[:300], m_[:300]),
+                              dict(kind='case', case=c, go=g_, model=m_))
+    ctx.oblige('correspondence: PolicySet.UnmarshalJSON = PolicyJson.dec_policy_set on %d JSON trees (%d outside the modelled domain)' % (len(ps_dec), unk4), 'correspondence', m4 == 0)
     ctx.oblige('direct oracle: JSON round trip (identical AST, stable bytes, ids, commutation with text, same meaning) on %d cases' % n, 'oracle', bad == 0)
     lib.epilogue(ctx)
